@@ -1,5 +1,5 @@
 import sys, importlib, traceback
-sys.path.insert(0,'/verif')
+import os; sys.path.insert(0, os.path.dirname(os.path.dirname(os.path.abspath(__file__))))
 from sa.ctx import Ctx
 root=sys.argv[1]; mod=sys.argv[2]
 ctx=Ctx(root)
